@@ -258,7 +258,8 @@ def decorate(rng, td, o):
             # the explicit list replaces the automatic `Self: Supertrait` predicates too, so it
             # must imply them: only parameter-based predicates do
             c = "custom"
-        needed_types = list(dict.fromkeys(needed_types))
+        from . import model as _M
+        needed_types = [t for t in dict.fromkeys(needed_types) if _M.mentions_param(td, t)]
         if c == "all":
             return ("all",)
         if c == "custom":
